@@ -38,6 +38,10 @@ def run_one(sid, tier="quick"):
         res["demo_passes_clean"] = rc.returncode == 0
     rt = sh(f"cd {work} && PYTHONPATH={work}/src /venv/bin/python -m pytest -q -p no:cacheprovider 2>&1 | tail -1")
     res["suite"] = rt.stdout.strip()
+    meta["verified"] = {"suite_with_patch": res["suite"], "demo_fails_with_patch": res.get("demo_fails_with_patch"),
+                        "demo_passes_clean": res.get("demo_passes_clean"),
+                        "ran": "patch applied to a scratch copy of /repo; pytest (full suite); demo.py with and without the patch; ./check <property> with SERIF_REPO=<scratch>"}
+    json.dump(meta, open(os.path.join(d, "meta.json"), "w"), indent=1)
     for p in props:
         t0 = time.time()
         env = dict(os.environ, SERIF_REPO=work)
@@ -70,6 +74,26 @@ def main():
                   {p: (c["exit"], "concrete" if c["concrete"] else "") for p, c in r.get("checks", {}).items()}, flush=True)
             json.dump(results, open(out_path, "w"), indent=1)
         shutil.rmtree(SCRATCH, ignore_errors=True)
+    elif len(sys.argv) >= 2 and sys.argv[1] == "import":
+        # import the deliverables of a mutation sub-agent: /tmp/seed/<pid>/out/{A,B}
+        for pid in sys.argv[2:]:
+            for x in ("A", "B", "C", "D"):
+                src = f"/tmp/seed/{pid}/out/{x}"
+                if not os.path.exists(os.path.join(src, "patch.diff")):
+                    continue
+                dst = os.path.join(SEEDED, f"{pid}-{x}")
+                os.makedirs(dst, exist_ok=True)
+                for fn in ("patch.diff", "demo.py"):
+                    if os.path.exists(os.path.join(src, fn)):
+                        shutil.copy(os.path.join(src, fn), os.path.join(dst, fn))
+                try:
+                    meta = json.load(open(os.path.join(src, "meta.json")))
+                except Exception:
+                    meta = {}
+                meta["property"] = pid
+                meta["author"] = "independent sub-agent given only the property text and a scratch worktree"
+                json.dump(meta, open(os.path.join(dst, "meta.json"), "w"), indent=1)
+                print("imported", dst)
     elif len(sys.argv) >= 2 and sys.argv[1] == "revert-patches":
         kf = json.load(open(os.path.join(VERIF, "known_findings.json")))
         for line in kf["fixed"]:
